@@ -1,5 +1,6 @@
 import HqModel.Base.Proto
-import HqModel.Core.Sched
+import HqModel.Core.Run
+import HqModel.Lemmas.CoreInvResStep
 /-! Driver of the tako core model (component `core`), see /verif/FRAMEWORK.md and harness/src/coreview.rs. -/
 open HqModel HqModel.Proto HqModel.Core
 
@@ -112,8 +113,8 @@ def splitOps (toks : List String) : List (List String) :=
     if t = "|" then (acc.1 ++ [acc.2], []) else (acc.1, acc.2 ++ [t])) ([], [])
   r.1 ++ [r.2]
 
-/-- one sub-operation; `rets` is threaded through (consumed by failures) -/
-def subOp (s : State) (rets : List (List TaskId)) (toks : List String) : Option (M (State × Out) × List (List TaskId)) :=
+/-- one sub-operation as a `Core.Op`; `rets` is threaded through (consumed by failures) -/
+def subOp (s : State) (rets : List (List TaskId)) (toks : List String) : Option (Op × List (List TaskId)) :=
   match toks with
   | ["wnew", id, tot, g, term] => do
     let id ← id.toNat?
@@ -122,44 +123,61 @@ def subOp (s : State) (rets : List (List TaskId)) (toks : List String) : Option 
     let term ← dropPrefix "term=" term
     let term ← if term = "-" then some none else term.toNat?.map some
     let w : Worker := { id := id, assign := .sn [] tot [], total := tot, group := g, termination := term }
-    pure (s.newWorker w, rets)
+    pure (.newWorker w, rets)
   | ["wlost", id, reason, fail, order] => do
     let id ← id.toNat?
     let order ← parseTidsSep "," order
-    pure (s.removeWorker id reason (fail = "1") order rets, [])
+    pure (.removeWorker id reason (fail = "1") order rets, [])
   | ["newrq", id, vs] => do
     let id ← id.toNat?
     let rqv ← (vs.splitOn "/").mapM parseRq
-    if id ≠ s.rqs.length then none else pure (.ok (s.newRq rqv, {}), rets)
+    if id ≠ s.rqs.length then none else pure (.newRq rqv, rets)
   | ["newtasks", items] => do
     let nts ← (items.splitOn ",").mapM parseNewTask
-    pure (s.newTasks nts, rets)
+    pure (.newTasks nts, rets)
   | ["cancel", ids] => do
     let ids ← parseTidsSep "," ids
-    pure (s.cancelTasks ids, rets)
+    pure (.cancel ids, rets)
   | ["update", w, items] => do
     let w ← w.toNat?
     let us ← if items = "-" then some [] else (items.splitOn ",").mapM parseUpdate
-    pure (s.taskUpdate w us rets, [])
+    pure (.update w us rets, [])
   | ["retracted", w, ids] => do
     let w ← w.toNat?
     let ids ← parseTidsSep "," ids
-    pure (s.retractResponse w ids, rets)
+    pure (.retracted w ids, rets)
   | ["sched", now, sn, mn, pf] => do
     let now ← dropPrefix "now=" now >>= String.toNat?
     let sn ← dropPrefix "sn=" sn >>= parseSn
     let mn ← dropPrefix "mn=" mn >>= parseMn
     let pf ← dropPrefix "pf=" pf >>= parsePf
-    pure (s.schedule { now := now, sn := sn, mn := mn, prefillOrders := pf }, rets)
+    pure (.schedule { now := now, sn := sn, mn := mn, prefillOrders := pf }, rets)
   | _ => none
 
-def runOps (s : State) (rets : List (List TaskId)) : List (List String) → Out → Option (M (State × Out))
-  | [], out => some (.ok (s, out))
-  | op :: rest, out =>
-    match subOp s rets op with
+/-- the side conditions of the history theorems (`C05.c05_inv_partial`, `c05_resinv_reachable`,
+`C01/C08.c0x_core_forgets_reachable`), evaluated by the model on the pre-state of every operation of a real trace:
+which of them fail (as monitor lines; `no-saturation` is the mechanism of finding F29) -/
+def hypFails (s : State) (op : Op) : List String :=
+  let f (clause : String) (b : Bool) (sig : String) : List String :=
+    if b then [] else [s!"mon FAIL {clause} {sig} a side condition of the history theorems is false on the pre-state of this operation of a real trace"]
+  (match op with
+   | .newWorker w => f "core.hyp" (decide (FreshWorker w)) "fresh-worker"
+   | .newRq rqv => f "core.hyp" (decide (RqvOk rqv)) "request-names-resource-twice"
+   | .update w us rets => f "core.hyp" (decide (UpdatesOk UpdProto s w us rets)) "reject-protocol"
+   | .schedule sol => f "core.hyp" (decide (QueueOkD s)) "queue-ok" ++ f "core.hyp" (decide (SolMnOk s sol)) "mn-placement-for-sn-request" ++
+       f "core.hyp" (decide (RdIn s)) "redirect-target-holds-task"
+   | _ => []) ++ f "c05.hyp" (decide (NoSaturation s op)) "no-saturation"
+
+def runOps (s : State) (rets : List (List TaskId)) : List (List String) → Out → List String → Option (M (State × Out) × List String)
+  | [], out, mons => some (.ok (s, out), mons)
+  | toks :: rest, out, mons =>
+    match subOp s rets toks with
     | none => none
-    | some (.error e, _) => some (.error e)
-    | some (.ok (s1, o), rets1) => runOps s1 rets1 rest (out.add o)
+    | some (op, rets1) =>
+      let mons := mons ++ hypFails s op
+      match Core.step s op with
+      | .error e => some (.error e, mons)
+      | .ok (s1, o) => runOps s1 rets1 rest (out.add o) mons
 
 /-! printing (must match harness/src/coreview.rs) -/
 
@@ -229,12 +247,12 @@ def step (s : State) (toks : List String) : State × List String :=
     match dropPrefix "rets=" rets >>= parseRets with
     | none => (s, ["out !bad-op"])
     | some rets =>
-      match runOps s rets (splitOps rest) {} with
+      match runOps s rets (splitOps rest) {} [] with
       | none => (s, ["out !bad-op"])
-      | some (.error (.panic site)) =>
-        (s, [if site.startsWith "!bad-choice" then s!"out {site}" else "out !panic core"])
-      | some (.ok (s', out)) =>
-        (s', showMsgs out.msgs ++ out.cbs.map showCb ++ [s!"out flag {if s'.needSched then 1 else 0}"] ++ snapshot s')
+      | some (.error (.panic site), mons) =>
+        (s, [if site.startsWith "!bad-choice" then s!"out {site}" else "out !panic core"] ++ mons)
+      | some (.ok (s', out), mons) =>
+        (s', showMsgs out.msgs ++ out.cbs.map showCb ++ [s!"out flag {if s'.needSched then 1 else 0}"] ++ snapshot s' ++ mons)
   | _ => (s, ["out !bad-op"])
 
 def reset (toks : List String) : State :=
